@@ -245,7 +245,8 @@ def valid_sequence(draw, ctx):
         npic += 1
     strict = level in (64, 65, 66)
     use_frag = (not strict) and draw(st.booleans())
-    mixed = level == 0 and draw(st.integers(0, 3)) == 0
+    # pictures mixed with fragments: legal at level 0 only (levels 1-7 forbid it: the model rejects those)
+    mixed = (not strict) and draw(st.integers(0, 3)) == 0
     body = []
     num = start
     any_frag = False
@@ -441,10 +442,14 @@ def histories(draw):
             if structural and draw(st.integers(0, 2)) != 0:
                 # keep the numbering consistent so that the verdict hinges on the structural rule
                 seq = renumber(seq, draw(st.sampled_from([0, 2, (1 << 32) - 2])))
+            if draw(st.sampled_from([False] * 9 + [True])):
+                # whole sequence numbered from an odd start: only wrong for field coding (first field must be even)
+                seq = renumber(seq, draw(st.sampled_from([1, 7, (1 << 32) - 1, (1 << 32) - 3])))
+                defects.append("odd_start")
         else:
             seq = [draw(random_unit(ctx)) for _ in range(draw(st.integers(1, 8)))]
             if draw(st.integers(0, 3)) != 0:
-                seq = renumber(seq, draw(st.sampled_from([0, 2, 4, (1 << 32) - 2])))
+                seq = renumber(seq, draw(st.sampled_from([0, 2, 4, (1 << 32) - 2, 1, (1 << 32) - 1])))
             if draw(st.booleans()) and seq[0]["kind"] != "SH":
                 seq.insert(0, U("SH", profile=ctx["profile"], pcm=ctx["pcm"], version=draw(st.sampled_from([1, 2, 3])),
                                 level=ctx["level"], variant=0))
